@@ -151,6 +151,43 @@ def encoder(ctx):
       any(has(p, '%s.pitch < min_pitch' % v) for p in parts) and any(has(p, '%s.pitch > max_pitch' % v) for p in parts)
   ctx.ob('SKIP/out-of-range', fi, first, ok, 'pitches outside [min_pitch, max_pitch] are skipped before any store' if ok else
          'the first statement of the note loop is not "pitch < min_pitch or pitch > max_pitch -> continue": out-of-range pitches reach the array stores (negative column = wraps)')
+  # location-independent: the onset window is written as the slice [start:end) of the onset roll; `end` is exclusive, so the largest
+  # value it must be able to take is the number of rows.  A clamp of that bound to rows - 1 (np.clip / min with len(roll) - 1 or
+  # shape[0] - 1) cuts the last frame out of every window: a note whose onset falls on the final frame gets no onset at all
+  for c in U.calls_in(fi.node):
+    d = dotted(c.func) or ''
+    hi = None
+    if d.split('.')[-1] == 'clip' and len(c.args) >= 3:
+      hi = c.args[2]
+    elif d == 'min':
+      hi = next((a for a in c.args if '.shape[0]' in norm_text(a) or 'len(' in norm_text(a)), None)
+    if hi is None:
+      continue
+    try:
+      h = nf.rat(U.expand_locals(fi.node, hi, at=c))
+    except nf.NFError:
+      continue
+    rows = [a for a in h.atoms() if a.endswith('.shape[0]') or a.startswith('len(')]
+    if len(rows) != 1:
+      continue
+    off = (h - nf.Rat(nf.Poly.atom(rows[0]))).const_value()
+    if off is None:
+      continue
+    # does the clamped value become the (exclusive) upper bound of a slice?
+    st = c
+    pm = U.parents(fi.node)
+    while st is not None and not isinstance(st, ast.stmt):
+      st = pm.get(id(st))
+    names = set(n.id for t, _v, _o in U.store_targets(st) for n in ast.walk(t) if isinstance(n, ast.Name)) if st is not None else set()
+    uppers = set(norm_text(s_.slice.elts[0].upper) if isinstance(s_.slice, ast.Tuple) and isinstance(s_.slice.elts[0], ast.Slice) and s_.slice.elts[0].upper is not None else
+                 (norm_text(s_.slice.upper) if isinstance(s_.slice, ast.Slice) and s_.slice.upper is not None else None)
+                 for s_ in ast.walk(fi.node) if isinstance(s_, ast.Subscript))
+    if not (names & uppers):
+      continue
+    ok = off >= 0
+    ctx.ob('WINDOW/end-clamp', fi, c, ok, 'the exclusive end of the window is clamped to the number of rows' if ok else
+           '%s clamps a value that is used as the exclusive end of a slice (%s) to %s, i.e. rows %+d: the last frame of the roll can never be inside the window, so a note whose '
+           'onset lies on the final frame has no onset' % (norm_text(c)[:80], ', '.join(sorted(names & uppers)), norm_text(hi), off), construct='exclusive end clamped to rows', definite=True)
   # onset window
   ws = [s for s in U.walk_stmts(loop) if isinstance(s, ast.Assign) and isinstance(s.value, ast.Call) and dotted(s.value.func) in ('max', 'min') and 'onset_window' in norm_text(s.value)]
   got = {}
@@ -325,6 +362,36 @@ def decoder(ctx):
          dotted(s.value.func) in ('np.logical_or', 'numpy.logical_or') and 'onset_predictions' in norm_text(s.value)]
   offs = [s for s in U.walk_stmts(fn) if isinstance(s, ast.Assign) and isinstance(s.targets[0], ast.Subscript) and norm_text(s.targets[0].value) == 'frames' and
           'offset_predictions' in norm_text(s.targets[0].slice) and U.const_value(s.value) == 0]
+  if not offs:
+    # location-independent: without that clearing statement, a cell that is active AND has a predicted offset must at least never
+    # be treated as active while no note is sounding - otherwise a note starts in a frame whose offset says "silent here"
+    from rules import C10
+    offset_fns = set(n for n, f in fi.nested.items() if any('offset_predictions' in norm_text(x) for x in ast.walk(f.node))) if hasattr(fi, 'nested') else set()
+    for c in U.calls_in(loop):
+      if not (isinstance(c.func, ast.Name) and c.func.id == 'process_active_pitch'):
+        continue
+      st = c
+      pm = U.parents(fn)
+      while st is not None and not isinstance(st, ast.stmt):
+        st = pm.get(id(st))
+      conds = U.path_conditions(fn, st, stop_at=loop)
+      env = {}
+      for t, _p in conds:
+        for x in ast.walk(t):
+          if isinstance(x, ast.Call) and isinstance(x.func, ast.Name) and x.func.id in offset_fns:
+            env[norm_text(x)] = True
+          if isinstance(x, ast.Compare) and 'offset_predictions[' in norm_text(x.left) and U.const_value(x.comparators[0]) == 0:
+            env[norm_text(x)] = True
+          if isinstance(x, ast.Compare) and len(x.ops) == 1 and isinstance(x.ops[0], (ast.In, ast.NotIn)) and norm_text(x.comparators[0]) == 'pitch_start_step':
+            env[norm_text(x)] = isinstance(x.ops[0], ast.NotIn)
+      inner = next((n for n in loop.body if isinstance(n, ast.For) and isinstance(n.target, ast.Tuple)), None)
+      if inner is not None:
+        env[inner.target.elts[1].id] = True
+      r = C10.tv_all(conds, env)
+      if r is True and any(v is True and ('offset' in k) for k, v in env.items()):
+        ctx.ob('DEC/offset-silences', fi, c, False, 'the frames are no longer cleared where an offset is predicted, and %s is reached for a cell that is active, has a predicted offset and '
+               'whose pitch is not sounding (%s): a note starts in a frame that the offset prediction marks as the end of sound, e.g. the second of two consecutive offset frames' % (
+                   norm_text(c), ' and '.join(('' if p else 'not ') + '(' + norm_text(t) + ')' for t, p in conds)), construct='an offset cell is never treated as active', definite=True)
   oko = len(ons) == 1 and len(offs) == 1 and ons[0].lineno < offs[0].lineno and offs[0].lineno < loop.lineno
   ctx.ob('DEC/onset-then-offset', fi, offs[0] if offs else fn, oko, 'onset frames are made active first, then frames with a predicted offset are cleared' if oko else
          'the offsets are not applied after the onsets were merged into the frames: a cell with both stays active and the note runs through its predicted offset',
